@@ -155,6 +155,9 @@ func (m *streamWorld) setup(ctx context.Context) error {
 				{Name: "b", Type: databasev1.TagType_TAG_TYPE_STRING},
 				{Name: "arr", Type: databasev1.TagType_TAG_TYPE_INT_ARRAY},
 			}},
+			// payload tags of every type the stream engine stores.  TAG_TYPE_TIMESTAMP is accepted by the registry but the
+			// stream write path panics on it ("unsupported tag value type: *v1.TagValue_Timestamp", write fails with
+			// code Internal and the supervisor shuts the server down): only the trace engine implements it.
 			{Name: streamFamDat, Tags: []*databasev1.TagSpec{
 				{Name: "ps", Type: databasev1.TagType_TAG_TYPE_STRING},
 				{Name: "pb", Type: databasev1.TagType_TAG_TYPE_DATA_BINARY},
@@ -186,7 +189,7 @@ func (m *streamWorld) setup(ctx context.Context) error {
 			return fmt.Errorf("create binding: %w", err)
 		}
 		// criteria on unindexed tags are accepted by the stream engine, so they cannot tell whether the binding has
-		// reached the stream's schema; ordering by an index rule can: it is rejected ("index rule is not defined")
+		// reached the stream's schema; ordering by an index rule can: it is rejected ("index is not define for the tag")
 		// until the stream object - the one the write path takes its index rules from - knows the rule
 		probe.OrderBy = &modelv1.QueryOrder{IndexRuleName: "idx-b", Sort: modelv1.Sort_SORT_ASC}
 	}
@@ -195,9 +198,14 @@ func (m *streamWorld) setup(ctx context.Context) error {
 	for {
 		_, qerr := m.query(ctx, probe)
 		ready := qerr == nil
-		if qerr != nil && probe.OrderBy != nil && !strings.Contains(qerr.Error(), "not defined") && !strings.Contains(qerr.Error(), "not found") &&
-			!strings.Contains(qerr.Error(), "doesn't exist") && !strings.Contains(qerr.Error(), "not exist") {
-			ready = true // the rule is known; the engine merely refuses to sort by this kind of index
+		if qerr != nil && probe.OrderBy != nil {
+			// "index is not define for the tag" (sic) = the rule has not reached the stream yet; any other refusal
+			// means the rule is known and the engine merely does not sort by this kind of index
+			unknown := false
+			for _, s := range []string{"not define", "not found", "not exist", "doesn't exist"} {
+				unknown = unknown || strings.Contains(qerr.Error(), s)
+			}
+			ready = !unknown
 		}
 		if ready {
 			settled++
@@ -250,6 +258,9 @@ func (m *streamWorld) rowTags(id int) (a int64, b string, arr []int64) {
 	sort.Slice(arr, func(i, j int) bool { return arr[i] < arr[j] })
 	return
 }
+
+// streamSigCount counts the reports per violation signature of query steps in this process.
+var streamSigCount = map[string]int{}
 
 var streamNull = &modelv1.TagValue{Value: &modelv1.TagValue_Null{}}
 
@@ -397,28 +408,23 @@ func (m *streamWorld) replay(ctx context.Context, b vlib.Behaviour) {
 				return
 			}
 			m.pids[vlib.Int(ev, "out")] = out
-		case "query":
-			if !m.checkQuery(ctx, st, ev, fail) {
-				return
-			}
-			continue
-		case "queryall":
-			// every query of the family is evaluated (one violation per distinct signature), then the behaviour stops
-			ok := true
-			sigs := map[string]bool{}
+		case "query", "queryall":
+			// queries are observations: every query of the step is evaluated and the behaviour goes on whatever they
+			// return; a signature is reported a few times per process only (the result keeps 50 violations)
 			once := func(sig, format string, a ...any) {
-				if !sigs[sig] {
-					sigs[sig] = true
+				if streamSigCount[sig] < 3 {
+					streamSigCount[sig]++
 					fail(sig, format, a...)
+				} else {
+					m.res.Inc("violations_not_listed")
 				}
+			}
+			if op == "query" {
+				m.checkQuery(ctx, st, ev, once)
+				continue
 			}
 			for _, r := range vlib.List(ev, "res") {
-				if !m.checkQuery(ctx, st, vlib.Rec(r), once) {
-					ok = false
-				}
-			}
-			if !ok {
-				return
+				m.checkQuery(ctx, st, vlib.Rec(r), once)
 			}
 			continue
 		}
@@ -846,6 +852,16 @@ func (m *streamWorld) checkQuery(ctx context.Context, st vlib.State, ev map[stri
 	return true
 }
 
+func isSubsequence(sub, seq []int) bool {
+	i := 0
+	for _, x := range seq {
+		if i < len(sub) && sub[i] == x {
+			i++
+		}
+	}
+	return i == len(sub)
+}
+
 // critOps names the operators and tags of a criteria ("ne:a" or "eq:b+ge:a").
 func critOps(c map[string]any) string {
 	one := func(l map[string]any) string { return vlib.Str(l, "op") + ":" + vlib.Str(l, "tag") }
@@ -920,9 +936,14 @@ func (m *streamWorld) checkWindow(es []*streamv1.Element, q, ev map[string]any, 
 			}
 			return got[i] > got[j]
 		})
+		c1 := vlib.Map(vlib.Map(q, "crit"), "c1")
 		switch {
 		case !sorted:
 			kind = "result-not-sorted"
+		case by == "time" && vlib.Str(c1, "op") != "true" && len(got) < len(want) && isSubsequence(got, want):
+			// fewer rows than the window holds although more qualify, with a criteria that is (also) evaluated after the
+			// scan: the engine cuts the time-ordered scan at offset+limit BEFORE the post-scan tag filter rejects rows
+			kind = "limit-underfilled-by-post-scan-filter:" + m.cfg.Index
 		case len(got) != len(want):
 			kind = "window-size-differs"
 		}
@@ -933,10 +954,10 @@ func (m *streamWorld) checkWindow(es []*streamv1.Element, q, ev map[string]any, 
 }
 
 // checkIndexOrder (stream only, beyond the spec's time order): the same query ordered by the index rule on tag a and
-// on tag b (inverted rules are sortable).  The expected window is computed here from the spec's full result: the
+// on tag b (the engine accepts index_rule_name ordering for inverted and for skipping rules alike).  The expected window is computed here from the spec's full result: the
 // sort keys of the selected elements sorted, then offset/limit applied.
 func (m *streamWorld) checkIndexOrder(ctx context.Context, st vlib.State, ev, q map[string]any, desc string, fail func(string, string, ...any)) bool {
-	if m.cfg.Index != "inverted" {
+	if _, indexed := m.indexType(); !indexed {
 		return true
 	}
 	asc := vlib.Bool(q, "asc")
